@@ -339,6 +339,20 @@ func RepopulatePhysicalExpressionFunctions(expr physical.Expression) (physical.E
 				if descriptor.Strict != receivedDescriptor.Strict {
 					continue descriptorLoop
 				}
+				if descriptor.TypeFn != nil {
+					// Overloads typed by a function declare no argument types: select the one that
+					// accepts the actual argument types, like the typechecker does.
+					argTypes := make([]octosql.Type, len(expr.FunctionCall.Arguments))
+					for j := range argTypes {
+						argTypes[j] = expr.FunctionCall.Arguments[j].Type
+						if descriptor.Strict {
+							argTypes[j] = octosql.NonNullable(argTypes[j])
+						}
+					}
+					if _, ok := descriptor.TypeFn(argTypes); !ok {
+						continue descriptorLoop
+					}
+				}
 				if !descriptor.OutputType.Equals(receivedDescriptor.OutputType) {
 					continue descriptorLoop
 				}
